@@ -63,10 +63,13 @@ def plan(net0, eqpt, reqs, syncs=()):
     return res, changed
 
 
-names = ['ring3', 'mesh4'] if a.tier == 'quick' else ['ring3', 'ring4', 'mesh4', 'full4']
+names = ['ring3', 'mesh4', 'mesh4:short sides'] if a.tier == 'quick' else ['ring3', 'ring4', 'mesh4', 'full4', 'mesh4:short sides']
+# the same mesh with short sides and a long diagonal: the two-hop routes are the shortest ones
+LENS_SHORT = {('A', 'B'): [50], ('B', 'C'): [50], ('C', 'D'): [60], ('D', 'A'): [60], ('A', 'C'): [100, 100]}
 for name in names:
-    sites, links = TOPOLOGIES[name]
-    topo = mesh(sites, links, spans={l: LENS.get(l, LENS.get((l[1], l[0]), [80])) for l in links}, junction='edfa')
+    sites, links = TOPOLOGIES[name.split(':')[0]]
+    lens = LENS_SHORT if name.endswith('short sides') else LENS
+    topo = mesh(sites, links, spans={l: lens.get(l, lens.get((l[1], l[0]), [80])) for l in links}, junction='edfa')
     net0, eqpt = design(topo)
     s = sites
     pool = {
@@ -119,7 +122,42 @@ for name in names:
             if res[rid] != alone[k]:
                 diff = {f: (alone[k][f], res[rid][f]) for f in alone[k] if alone[k][f] != res[rid][f]}
                 wit.append({'key': f'{name}:depends-on-batch:{b}:{k}', 'alone_vs_batch': json.dumps(diff, default=str)[:600]})
+    # synchronisation groups that have nothing to do with each other: each group gets the routes and figures it gets when it is
+    # planned without the other one, in either order of the groups and of the vectors (ids chosen so that one is a substring of another)
+    from bounded.common import sync
+    if len(s) >= 4:
+        ends = [(s[0], s[2]), (s[1], s[3])]
+    else:
+        ends = [(s[0], s[2]), (s[0], s[1])]
+    for id_x, id_y in ((('1', '2'), ('13', '14')), (('x1', 'x2'), ('y1', 'y2'))):
+        # (each group: its two requests between the same end points, or between different ones sharing the source)
+        other = [(s[0], x) for x in s[1:]]
+        shapes = [((e, e), (f, f)) for e, f in ((ends[0], ends[0]), (ends[0], ends[1]), (ends[1], ends[0]))] + \
+            [((ends[0], o1), (ends[0], o2)) for o1, o2 in itertools.permutations(other, 2) if o1 != ends[0] and o2 != ends[0]][:4]
+        for ((ax, bx), (ax2, bx2)), ((ay, by), (ay2, by2)) in shapes:
+            gx = [service(id_x[0], ax, bx), service(id_x[1], ax2, bx2, mode='mode 2', spacing=75e9)]
+            gy = [service(id_y[0], ay, by), service(id_y[1], ay2, by2, mode='mode 2', spacing=75e9)]
+            try:
+                rx, _ = plan(net0, eqpt, gx, [sync('X', id_x)])
+                ry, _ = plan(net0, eqpt, gy, [sync('Y', id_y)])
+            except (ServiceError, DisjunctionError):
+                continue        # a group that cannot be served on its own is not part of this family
+            ref = dict(rx, **ry)
+            for reqs, syncs in ((gx + gy, [sync('X', id_x), sync('Y', id_y)]), (gy + gx, [sync('Y', id_y), sync('X', id_x)]),
+                                (gx + gy, [sync('Y', id_y), sync('X', id_x)]), ([gx[0], gy[0], gx[1], gy[1]], [sync('X', id_x), sync('Y', id_y)])):
+                cases += 1
+                key = f'{name}:two-unrelated-groups:{id_x}{(ax, bx), (ax2, bx2)}/{id_y}{(ay, by), (ay2, by2)}:order {[r["request-id"] for r in reqs]}, vectors {[v["synchronization-id"] for v in syncs]}'
+                try:
+                    res, changed = plan(net0, eqpt, reqs, syncs)
+                except (ServiceError, DisjunctionError) as e:
+                    wit.append({'key': key, 'problems': f'{type(e).__name__} although each group is served when planned without the other'})
+                    continue
+                nontriv += 1
+                diff = {rid: {f: (ref[rid][f], res.get(rid, {}).get(f)) for f in ref[rid] if res.get(rid, {}).get(f) != ref[rid][f]}
+                        for rid in ref if res.get(rid) != ref[rid]}
+                if diff:
+                    wit.append({'key': key, 'alone_vs_batch': json.dumps(diff, default=str)[:600]})
 finish('request results independent of batch content/order; network settings untouched by planning', 'bounded',
        'gnpy.tools.worker_utils.planning -> compute_path_with_disjunction / requests_aggregation',
        f'topologies {names}, 11 request kinds (fixed/auto mode, bidirectional, dense saturating comb, high power, blocked, infeasible, '
-       f'route constraints), all orders of 3 triples + mixed batches + {nrand} random batches', cases, wit, nontrivial=nontriv, t0=t0)
+       f'route constraints), all orders of 3 triples + mixed batches + {nrand} random batches; two unrelated synchronisation groups in 4 orders', cases, wit, nontrivial=nontriv, t0=t0)
